@@ -8,7 +8,9 @@ import (
 	"go/constant"
 	"go/token"
 	"go/types"
+	"os"
 	"sort"
+	"strconv"
 	"strings"
 
 	"golang.org/x/tools/go/packages"
@@ -63,13 +65,13 @@ func (p *Program) AllRegexes() (byName map[string]*RegexConst, unresolved []stri
 				default:
 					return true
 				}
-				tv := pk.TypesInfo.Types[ce.Args[0]]
 				name, isVar := owner[ce]
-				if tv.Value == nil || tv.Value.Kind() != constant.String || !isVar || strings.Contains(fn.Name(), "POSIX") {
+				src, okSrc := p.foldString(pk, ce.Args[0], nil, 0)
+				if !okSrc || !isVar || strings.Contains(fn.Name(), "POSIX") {
 					unresolved = append(unresolved, p.Pos(ce.Pos()))
 					return true
 				}
-				byName[pk.Types.Name()+"."+name] = &RegexConst{Pkg: pk.PkgPath, Name: name, Src: constant.StringVal(tv.Value), Pos: ce.Pos()}
+				byName[pk.Types.Name()+"."+name] = &RegexConst{Pkg: pk.PkgPath, Name: name, Src: src, Pos: ce.Pos()}
 				return true
 			})
 		}
@@ -310,4 +312,134 @@ func ConstNames(pk *packages.Package, T types.Type) map[int64]string {
 		}
 	}
 	return out
+}
+
+// foldString evaluates a string expression that is constant up to calls of pure string-building
+// helpers of the repository: constants, + , parentheses, package-level variables that are
+// initialised once and never assigned, and calls of functions whose body is a single
+// "return <expr>" over their (constant) arguments.
+func (p *Program) foldString(pk *packages.Package, e ast.Expr, env map[types.Object]string, depth int) (v string, ok bool) {
+	if os.Getenv("DBG_FOLD") != "" {
+		defer func() { fmt.Printf("%*sfold %T depth=%d -> %q %v\n", depth*2, "", e, depth, v, ok) }()
+	}
+	if depth > 6 {
+		return "", false
+	}
+	e = ast.Unparen(e)
+	if tv, ok := pk.TypesInfo.Types[e]; ok && tv.Value != nil && tv.Value.Kind() == constant.String {
+		return constant.StringVal(tv.Value), true
+	}
+	switch x := e.(type) {
+	case *ast.Ident:
+		obj := pk.TypesInfo.Uses[x]
+		if obj == nil {
+			return "", false
+		}
+		if v, ok := env[obj]; ok {
+			return v, true
+		}
+		if vr, ok := obj.(*types.Var); ok && vr.Parent() == vr.Pkg().Scope() {
+			// package-level variable: its initialiser, if nothing assigns to it
+			dpk := p.Pkgs[vr.Pkg().Path()]
+			if dpk == nil || p.assignedAnywhere(dpk, vr) {
+				return "", false
+			}
+			for _, f := range dpk.Syntax {
+				for _, d := range f.Decls {
+					gd, ok := d.(*ast.GenDecl)
+					if !ok || gd.Tok != token.VAR {
+						continue
+					}
+					for _, sp := range gd.Specs {
+						vs := sp.(*ast.ValueSpec)
+						for i, n := range vs.Names {
+							if dpk.TypesInfo.Defs[n] == obj && i < len(vs.Values) && len(vs.Values) == len(vs.Names) {
+								return p.foldString(dpk, vs.Values[i], nil, depth+1)
+							}
+						}
+					}
+				}
+			}
+		}
+	case *ast.BasicLit:
+		if x.Kind == token.STRING {
+			if v, err := strconv.Unquote(x.Value); err == nil {
+				return v, true
+			}
+		}
+	case *ast.BinaryExpr:
+		if x.Op == token.ADD {
+			a, ok1 := p.foldString(pk, x.X, env, depth)
+			b, ok2 := p.foldString(pk, x.Y, env, depth)
+			return a + b, ok1 && ok2
+		}
+	case *ast.CallExpr:
+		// string(<constant rune slice>) etc. are left to go/types; here: calls of one-line helpers
+		fn, _ := typeutil.Callee(pk.TypesInfo, x).(*types.Func)
+		if fn == nil || fn.Pkg() == nil {
+			return "", false
+		}
+		dpk := p.Pkgs[fn.Pkg().Path()]
+		if dpk == nil {
+			return "", false
+		}
+		for _, f := range dpk.Syntax {
+			for _, d := range f.Decls {
+				fd, ok := d.(*ast.FuncDecl)
+				if !ok || dpk.TypesInfo.Defs[fd.Name] != types.Object(fn) || fd.Body == nil || len(fd.Body.List) != 1 {
+					continue
+				}
+				ret, ok := fd.Body.List[0].(*ast.ReturnStmt)
+				if !ok || len(ret.Results) != 1 {
+					return "", false
+				}
+				env2 := map[types.Object]string{}
+				i := 0
+				for _, fl := range fd.Type.Params.List {
+					for _, n := range fl.Names {
+						if i >= len(x.Args) {
+							return "", false
+						}
+						v, ok := p.foldString(pk, x.Args[i], env, depth+1)
+						if !ok {
+							return "", false
+						}
+						env2[dpk.TypesInfo.Defs[n]] = v
+						i++
+					}
+				}
+				return p.foldString(dpk, ret.Results[0], env2, depth+1)
+			}
+		}
+	}
+	return "", false
+}
+
+// assignedAnywhere: some statement of the package assigns to (or takes the address of) the variable.
+func (p *Program) assignedAnywhere(pk *packages.Package, v *types.Var) bool {
+	found := false
+	for _, f := range pk.Syntax {
+		ast.Inspect(f, func(n ast.Node) bool {
+			switch x := n.(type) {
+			case *ast.AssignStmt:
+				for _, l := range x.Lhs {
+					if id, ok := ast.Unparen(l).(*ast.Ident); ok && pk.TypesInfo.Uses[id] == types.Object(v) {
+						found = true
+					}
+				}
+			case *ast.UnaryExpr:
+				if x.Op == token.AND {
+					if id, ok := ast.Unparen(x.X).(*ast.Ident); ok && pk.TypesInfo.Uses[id] == types.Object(v) {
+						found = true
+					}
+				}
+			case *ast.IncDecStmt:
+				if id, ok := ast.Unparen(x.X).(*ast.Ident); ok && pk.TypesInfo.Uses[id] == types.Object(v) {
+					found = true
+				}
+			}
+			return !found
+		})
+	}
+	return found
 }
